@@ -27,6 +27,7 @@ EXTENDS Draft6
 (***************************************************************************)
 DeepBool            == TRUE   \* replace_bool recurses into lists and dicts
 PlaceholderBySource == TRUE   \* Properties.__call__ keys placeholders by source
+EqBoolAware         == TRUE   \* Element.__eq__ aliases booleans before comparing literals
 CompositeKeepsDefault == TRUE \* Properties.__getitem__: AllOf(prop, patterns) keeps prop's default
 
 EmptyKw == [x \in {} |-> TRUE]
@@ -286,6 +287,7 @@ Attempt(e, v) ==
 (* (Python ==, so True == 1); class names are not compared.                *)
 (***************************************************************************)
 ElemKws == {"items", "additionalItems", "contains", "additionalProperties", "propertyNames"}
+LitEq(x, y) == IF EqBoolAware THEN BoolAwareEq(x, y) ELSE PyEq(x, y)
 RECURSIVE ElemEq(_, _)
 ElemEq(a, b) ==
   /\ a.cls = b.cls
@@ -294,8 +296,8 @@ ElemEq(a, b) ==
   /\ \A i \in 1..Len(a.elems) : ElemEq(a.elems[i], b.elems[i])
   /\ \A kw \in DOMAIN a.kw :
        LET x == a.kw[kw]  y == b.kw[kw] IN
-       CASE kw \in {"default", "const"} -> PyEq(x, y)
-         [] kw = "enum" -> Len(x) = Len(y) /\ \A i \in 1..Len(x) : PyEq(x[i], y[i])
+       CASE kw \in {"default", "const"} -> LitEq(x, y)
+         [] kw = "enum" -> Len(x) = Len(y) /\ \A i \in 1..Len(x) : LitEq(x[i], y[i])
          [] kw \in {"minimum", "maximum", "exclusiveMinimum", "exclusiveMaximum", "multipleOf"}
               -> NumEq(x, y)
          [] kw \in ElemKws -> ElemEq(x, y)
